@@ -282,6 +282,10 @@ func (cs *ContractSet) loadFile(path string, pkgPath string) error {
 			if head == "func" {
 				k = pkgPath + "::" + rest
 			}
+			// callback contracts are named after a parameter: scoped to the package of the contract file
+			if head == "ext" && strings.HasPrefix(rest, "callback:") && pkgPath != "" {
+				k = "ext::" + rest + "@" + pkgPath
+			}
 			if old, ok := cs.ByKey[k]; ok {
 				return fmt.Errorf("%s: duplicate contract for %s (also in %s)", path, rest, old.File)
 			}
